@@ -49,7 +49,7 @@ def _count_cost(prog, rn, mn, mx):
         if isinstance(a, NodeRef) and a.name in ("c1", "c2"):
             return Lin({a.name: 1})
         raise Unsupported("rnode_count on %r" % (a,))
-    ip = Interp(prog, hooks={"rnode_count": h_count},
+    ip = Interp(prog, hooks={"rnode_count": h_count}, sym_cap=4096,
                 fields={"rn": rn, "mincnt": mn, "maxcnt": mx, "c1": NodeRef("c1"), "c2": NodeRef("c2")})
     v = ip.call(f, [NodeRef("n")])
     if isinstance(v, int):
@@ -586,7 +586,17 @@ def rule_R8(ctx):
         raise AnalysisBroken("ratom_match: atom kinds not found")
     CHR, ANY, BRK = 0, ord("."), ord("[")
     subj_alpha = [0x41, 0x61, 0x0a, 0xc3, 0xa9, 0xe2]
-    pats = [(0x41,), (0x61, 0x62), (0xc3, 0xa9), (0xc3,), (0x41, 0xc3, 0xa9)]
+    # literals incl. a truncated sequence and overlong encodings (they decode to 'A' / 'a', so
+    # under ignore-case they equal a one-byte subject character)
+    pats = [(0x41,), (0x61, 0x62), (0xc3, 0xa9), (0xc3,), (0x41, 0xc3, 0xa9),
+            (0xc1, 0x81), (0xe0, 0x81, 0x81), (0xc1, 0xa1, 0x41)]
+    # the flag bits ratom_match looks at
+    flagbits = sorted({cval(n["r"]) for n in f.walk() if n["k"] == "bin" and n["op"] == "&" and
+                       strip_casts(n["l"])["k"] == "member" and strip_casts(n["l"])["field"] == "flg"
+                       and cval(n["r"]) is not None})
+    if len(flagbits) < 2:
+        raise AnalysisBroken("ratom_match: flag tests not found")
+    flagsets = [0] + flagbits
     brks = [(0x5b, 0x61, 0x5d), (0x5b, 0x5e, 0x61, 0x5d), (0x5b, 0xc3, 0xa9, 0x5d), (0x5b, 0x5e, 0xc3, 0xa9, 0x5d)]
     n_eval = 0
     bad = None
@@ -594,8 +604,9 @@ def rule_R8(ctx):
         for combo in itertools.product(subj_alpha, repeat=L):
             subj = tuple(combo) + (0,)
             for start in range(0, L + 1):
-                cases = [(CHR, p, flg) for p in pats for flg in (0, 2)] + [(ANY, (), 0), (ANY, (), 4)] + \
-                    [(BRK, b, flg) for b in brks for flg in (0, 2)]
+                cases = [(CHR, p, flg) for p in pats for flg in flagsets] + \
+                    [(ANY, (), flg) for flg in flagsets] + \
+                    [(BRK, b, flg) for b in brks for flg in flagsets]
                 for ra, pat, flg in cases:
                     n_eval += 1
                     sp = Ptr(subj)
@@ -640,4 +651,151 @@ def rule_R8(ctx):
         ctx.violation("regexec", "scan stops at the terminator", "loop condition %s" % (key(lp[0]["c"]) if lp else None))
 
 
-RULES = {"R1": rule_R1, "R2": rule_R2, "R3": rule_R3, "R7": rule_R7, "R8": rule_R8}
+def rule_R10(ctx):
+    """The size estimate is a bounded quantity: rnode_count never returns more than a constant
+    cap, its arithmetic cannot leave int when its children are within the cap, and regcomp only
+    allocates/emits when the estimate is strictly below the cap (so no clamp fired anywhere and
+    R1's comparison applies).  Without a cap nested repetitions multiply and the int estimate
+    wraps (replayed: four nested {128})."""
+    ctx.begin("R10", floor=3, what="bounded program size estimate")
+    from ..bounds import path_states
+    from ..lin import prove_le, PROVEN, cmp_constraints
+    from ..absint import IntOverflow
+    from .. import lin as _lin
+    prog = ctx.prog
+    cnt = prog.func("rnode_count", file="regex.c")
+    rc = prog.func("regcomp", file="regex.c")
+
+    def consts_of(f):
+        out = set()
+        for n in f.walk():
+            if n["k"] == "bin" and n["op"] in ("<", "<=", ">", ">="):
+                for side in (n["l"], n["r"]):
+                    v = cval(side)
+                    if v is not None and v >= 1024:
+                        out.add(v)
+        return sorted(out)
+    # (a) every return of rnode_count is <= capc
+    capc = None
+    try:
+        sts = list(path_states(cnt, "exit", max_paths=4000))
+    except OverflowError:
+        raise AnalysisBroken("rnode_count: too many paths")
+    rets = []
+    for subst, hyps, items in sts:
+        rs = [cnt.nodes.get(x[1]) for x in items if x[0] == "ev"]
+        rs = [x for x in rs if x is not None and x["k"] == "return"]
+        if not rs or rs[-1].get("e") is None:
+            continue
+        byid = {cnt.nodes[x[1]]["id"]: x[2] for x in items if x[0] == "br"}
+        _lin._COND_RES[0] = byid
+        try:
+            from ..lin import linearize
+            rl = linearize(strip_casts(rs[-1]["e"]), subst)
+        finally:
+            _lin._COND_RES[0] = None
+        rets.append((rl, hyps, rs[-1]))
+    if not rets:
+        raise AnalysisBroken("rnode_count: no returns found")
+    for K in consts_of(cnt):
+        if all(rl is not None and prove_le(rl, Lin(k=K), hyps) == PROVEN for rl, hyps, r in rets):
+            capc = K
+            break
+    if capc is None:
+        worst = next((r for rl, hyps, r in rets if rl is None or not rl.is_const()), rets[0][2])
+        ctx.violation("rnode_count", "program size estimate bounded",
+                      "no constant bounds what rnode_count returns (`%s`): every nesting level multiplies "
+                      "the size by min+max, so nested repetitions such as (((a{128}){128}){128}){128} wrap the "
+                      "int estimate and regcomp allocates a program far smaller than what is emitted" %
+                      key(worst)[:60], cnt.loc(worst))
+        return
+    ctx.ok("rnode_count", "every return <= %d (%d exit paths)" % (capc, len(rets)))
+    # (b) regcomp emits only when the estimate is strictly below the cap
+    emits = list(rc.calls("rnode_emit"))
+    if not emits:
+        raise AnalysisBroken("regcomp does not call rnode_emit")
+    atom_keys = [key(c) for c in rc.calls("rnode_count")]
+    if not atom_keys:
+        raise AnalysisBroken("regcomp does not call rnode_count")
+    A = Lin({atom_keys[0]: 1})
+    for c in emits + list(rc.calls("malloc")):
+        sts = path_states(rc, c["id"])
+        bad = False
+        for subst, hyps, items in sts:
+            # the call's value as this path names it (versioned when its argument was stored)
+            names = {a_ for l_ in list(subst.values()) + [h_ for h_ in hyps if isinstance(h_, Lin)]
+                     if isinstance(l_, Lin) for a_ in l_.c if a_.split("#")[0] == atom_keys[0]}
+            A_ = Lin({sorted(names)[0]: 1}) if names else A
+            if prove_le(A_ + Lin(k=1), Lin(k=capc), hyps) != PROVEN:
+                bad = True
+        if c.get("fn") == "malloc" and not any(r_["name"] for r_ in refs(c["args"][0])
+                                               if r_.get("cat") == "local"):
+            continue
+        if c.get("fn") == "malloc" and "rnode_count" not in key(c["args"][0]) and not any(
+                r_["name"] == _count_var(rc) for r_ in refs(c["args"][0])):
+            continue
+        if bad:
+            ctx.violation("regcomp", "saturated estimate rejected",
+                          "%s is reached with rnode_count() possibly at its cap %d: a clamped estimate is "
+                          "smaller than the program that is emitted" % (c.get("fn"), capc), rc.loc(c))
+        else:
+            ctx.ok("regcomp", "%s only when rnode_count() < %d (not clamped)" % (c.get("fn"), capc), loc=rc.loc(c))
+    # (c) no int overflow inside rnode_count with children at the cap
+    kinds = _rn_kinds(prog)
+    atom = prog.func("rnode_atom", file="regex.c")
+    rng, rejects = _domain(prog)
+    NREPS = None
+    for n in prog.func("rnode_emit", file="regex.c").walk():
+        if n["k"] == "var" and n["name"] == "jmpend":
+            NREPS = n.get("arr_n")
+    if NREPS is None:
+        raise AnalysisBroken("rnode_emit: jmpend array not found")
+    vals = [-1, 0, 1, 2, NREPS // 2, NREPS - 1, NREPS]
+    if ctx.tier == "thorough":
+        vals = list(range(-1, NREPS + 1))
+    n_cells = 0
+    ovf = None
+
+    def h_count(ip, fn, e, args, env):
+        return capc
+    for mn in vals:
+        for mx in vals:
+            try:
+                if mn < 0 or _eval_reject(prog, atom, rejects, mn, mx):
+                    continue
+            except Unsupported as e:
+                raise AnalysisBroken("rejection test not evaluable: %s" % e)
+            for rn in kinds:
+                n_cells += 1
+                ip = Interp(prog, hooks={"rnode_count": h_count}, int_overflow=True,
+                            fields={"rn": rn, "mincnt": mn, "maxcnt": mx, "c1": NodeRef("c1"), "c2": NodeRef("c2")})
+                try:
+                    v = ip.call(cnt, [NodeRef("n")])
+                except IntOverflow as e:
+                    ovf = ovf or (rn, mn, mx, str(e))
+                    continue
+                except Unsupported as e:
+                    raise AnalysisBroken("rnode_count not evaluable at %s {%d,%d}: %s" % (rn, mn, mx, e))
+                if isinstance(v, int) and v > capc:
+                    ovf = ovf or (rn, mn, mx, "returns %d" % v)
+    if n_cells < 20:
+        raise AnalysisBroken("only %d admitted cells" % n_cells)
+    if ovf:
+        ctx.violation("rnode_count", "estimate arithmetic stays inside int",
+                      "kind %r with {%d,%d} and children at the cap %d: %s overflows int" % (
+                          chr(ovf[0]) if ovf[0] else "atom", ovf[1], ovf[2], capc, ovf[3]))
+    else:
+        ctx.ok("rnode_count", "no int overflow with children at the cap %d on %d admitted (kind,min,max) cells "
+               "(the estimate is monotone in its children: R1's coefficients are non-negative)" % (capc, n_cells))
+
+
+def _count_var(rc):
+    for n in rc.walk():
+        if n["k"] == "var" and n.get("init") is not None and any(
+                is_call(c, "rnode_count") for c in calls_in(n["init"])):
+            return n["name"]
+    return None
+
+
+
+RULES = {"R1": rule_R1, "R2": rule_R2, "R3": rule_R3, "R7": rule_R7, "R8": rule_R8, "R10": rule_R10}
